@@ -17,8 +17,9 @@ import AoVerif.Gen.Formulas
 namespace AoVerif.Drive.C04
 open AoVerif AoVerif.Drive AoVerif.InfiniteCov
 
-/-- `numpy.float32(r)` followed by the implicit widening when it meets float64 operands -/
-def r32 (x : Float) : Float := x.toFloat32.toFloat
+/-- the rounding hook `r32` of `covMat`: `turb.phase_covariance` converts the separations with `numpy.float64(r)`
+(double precision since the repair 4518b2c; it was `numpy.float32(r)` on the pinned tree), i.e. it does not round -/
+def sepRound (x : Float) : Float := x
 
 structure Geom where
   nx : Nat
@@ -60,7 +61,7 @@ def handle (args : List String) : Option String :=
       let g ← geomOf variant size par
       let pos := (allCoords g.stencil g.nx).toArray
       let n := pos.size
-      let S := covMat (fun r => Gen.phase_covariance r r0 L0) r32 px (fun i => pos[i]!)
+      let S := covMat (fun r => Gen.phase_covariance r r0 L0) sepRound px (fun i => pos[i]!)
       pure (toString n ++ " " ++ outMat n n S)
   | "amat" :: s1 :: s2 :: rest => do
       let nz ← s1.toNat?
